@@ -1,5 +1,6 @@
 /* C04 kernel 4: JSON::serialize(options) of one scalar, all 64 option sets (options symbolic), exact expected text.
- * KIND 0: null / booleans  -> "null" "true" "false", or "n" "t" "f" iff ONE_CHARACTER_TRIVIAL_CONSTANTS (0x02)
+ * KIND 0 / 1: null / booleans -> "null" "true" "false", or "n" "t" "f" iff ONE_CHARACTER_TRIVIAL_CONSTANTS (0x02)
+ * (the kind of the value is a concrete cell so that CBMC follows one branch of serialize's switch)
  * KIND 2: int64, HEX_INTEGERS (0x01) set -> [-]0x<uppercase hex magnitude, no leading zeros>, every int64 incl. INT64_MIN;
  *         expected text from an independent nibble formatter. vasprintf: engine/rt/stub_printf.h (exact for %lX).
  * KIND 3: int64, HEX_INTEGERS clear -> canonical decimal. std::to_string is a contract stub (json_cuts.h): the harness chooses
@@ -28,12 +29,12 @@ void harness(void) {
   uint32_t options = (uint32_t)in_range(0, 63);
   unsigned n = 0;
   int64_t r;
-#if KIND == 0
-  uint32_t which = (uint32_t)in_range(0, 2); /* null, false, true */
-  const char* full = which == 0 ? "null" : which == 1 ? "false" : "true";
+#if KIND == 0 || KIND == 1
+  uint32_t bv = in_bool(); /* KIND 0: null; KIND 1: false / true */
+  const char* full = KIND == 0 ? "null" : bv ? "true" : "false";
   if (options & 2) exp[n++] = (uint8_t)full[0];
   else for (unsigned i = 0; full[i]; i++) exp[n++] = (uint8_t)full[i];
-  r = w_json_ser_scalar(which == 0 ? 0 : 1, which == 2, s, 0, options, out, CAP);
+  r = w_json_ser_scalar(KIND, bv, s, 0, options, out, CAP);
   OBS(r);
   expect_text(out, r, exp, n);
 #elif KIND == 2
